@@ -44,6 +44,12 @@ _real = os.path.realpath(lomond.__file__)
 if not _real.startswith(LOMOND_SRC + os.sep):
     raise Inconclusive('lomond imported from %s, not from %s' % (_real, LOMOND_SRC))
 
+import logging as _logging
+_log = _logging.getLogger('lomond')
+_log.addHandler(_logging.NullHandler())
+_log.propagate = False
+_log.setLevel(_logging.CRITICAL + 10)
+
 from lomond import errors as lerrors  # noqa
 from lomond import events as levents  # noqa
 from lomond.websocket import WebSocket  # noqa
